@@ -15,12 +15,30 @@ import re
 SENT = "__scfg_sentinel__"
 
 
+class _HoistNorm(ast.NodeTransformer):
+    """and/or expressions and the temporaries the front end replaces them with look alike, so that
+    an expression keeps its id when an and/or inside it is hoisted"""
+
+    def visit_BoolOp(self, node):
+        return ast.Constant("<and/or>")
+
+    def visit_Name(self, node):
+        if node.id.startswith("__scfg_bool_op_"):
+            return ast.Constant("<and/or>")
+        return node
+
+
+def norm_dump(node):
+    import copy
+    return ast.dump(_HoistNorm().visit(copy.deepcopy(node)))
+
+
 class Ids:
     def __init__(self):
         self.t = {}
 
     def of(self, node_or_text):
-        text = node_or_text if isinstance(node_or_text, str) else ast.dump(node_or_text)
+        text = node_or_text if isinstance(node_or_text, str) else norm_dump(node_or_text)
         if text not in self.t:
             self.t[text] = 500000 + len(self.t)
         return self.t[text]
@@ -82,8 +100,8 @@ def abs_expr(e, ids, env):
         for c in e.comparators:
             out += abs_expr(c, ids, env)
         return out
-    if isinstance(e, ast.UnaryOp) and isinstance(e.op, ast.Not) and isinstance(e.operand, ast.Name) and e.operand.id.startswith("__scfg_"):
-        return ["no", "v", e.operand.id]
+    if isinstance(e, ast.UnaryOp) and isinstance(e.op, ast.Not):
+        return ["no"] + abs_expr(e.operand, ids, env)
     if isinstance(e, ast.Call):
         if is_oracle_call(e):
             out = ["ca", str(e.args[0].value), "c", "o.a", "1", str(len(e.args) - 1)]
@@ -91,7 +109,7 @@ def abs_expr(e, ids, env):
                 out += abs_expr(a, ids, env)
             return out
         if isinstance(e.func, ast.Name) and e.func.id == "iter" and len(e.args) == 1 and not e.keywords:
-            return ["it", str(ids.of("for:" + ast.dump(e.args[0])))] + abs_expr(e.args[0], ids, env)
+            return ["it", str(ids.of("for:" + norm_dump(e.args[0])))] + abs_expr(e.args[0], ids, env)
         if isinstance(e.func, ast.Name) and e.func.id == "next" and len(e.args) == 2 and isinstance(e.args[0], ast.Name) \
                 and isinstance(e.args[1], ast.Constant) and e.args[1].value == SENT:
             it = e.args[0].id
@@ -113,7 +131,7 @@ def abs_stmt(s, ids, env):
             x = s.targets[0].id
             v = s.value
             if isinstance(v, ast.Call) and isinstance(v.func, ast.Name) and v.func.id == "iter" and len(v.args) == 1 and x.startswith("__scfg_iterator_"):
-                env["iters"][x] = ids.of("for:" + ast.dump(v.args[0]))
+                env["iters"][x] = ids.of("for:" + norm_dump(v.args[0]))
             return ["as", x] + abs_expr(v, ids, env)
         rd = []
         for t in s.targets:
@@ -124,7 +142,7 @@ def abs_stmt(s, ids, env):
     if isinstance(s, ast.AugAssign):
         if isinstance(s.target, ast.Name):
             fake = ast.BinOp(left=ast.Name(id=s.target.id, ctx=ast.Load()), op=s.op, right=s.value)
-            return ["as", s.target.id, "bi", str(ids.of("aug:" + ast.dump(s.op) + ast.dump(s.value) + s.target.id)), "v", s.target.id] + abs_expr(s.value, ids, env)
+            return ["as", s.target.id, "bi", str(ids.of("aug:" + ast.dump(s.op) + norm_dump(s.value) + s.target.id)), "v", s.target.id] + abs_expr(s.value, ids, env)
         rd = names_loaded(s.target)
         return ["st", str(ids.of(s.target)), str(len(rd))] + rd + abs_expr(s.value, ids, env)
     if isinstance(s, ast.Expr):
@@ -144,7 +162,7 @@ def abs_stmt(s, ids, env):
     if isinstance(s, ast.For):
         if not isinstance(s.target, ast.Name):
             return ["un", "for-target"]
-        return ["fo", str(ids.of("for:" + ast.dump(s.iter))), s.target.id] + abs_expr(s.iter, ids, env) \
+        return ["fo", str(ids.of("for:" + norm_dump(s.iter))), s.target.id] + abs_expr(s.iter, ids, env) \
             + abs_stmts(s.body, ids, env) + abs_stmts(s.orelse, ids, env)
     if isinstance(s, ast.expr):          # a bare expression node inside a CFG block
         return ["ex"] + abs_expr(s, ids, env)
@@ -176,7 +194,7 @@ def abs_cfg(astcfg, ids):
         for ins in astcfg[n].instructions:
             if isinstance(ins, ast.Assign) and len(ins.targets) == 1 and isinstance(ins.targets[0], ast.Name) \
                     and ins.targets[0].id.startswith("__scfg_iterator_") and isinstance(ins.value, ast.Call) and ins.value.args:
-                env["iters"][ins.targets[0].id] = ids.of("for:" + ast.dump(ins.value.args[0]))
+                env["iters"][ins.targets[0].id] = ids.of("for:" + norm_dump(ins.value.args[0]))
     out = [str(len(names))]
     for n in names:
         b = astcfg[n]
